@@ -59,6 +59,7 @@ EncType(t) ==
 
 -----------------------------------------------------------------------------
 Sls == {0, 1, 2, 3}
+LongStr(n) == [__rep__ |-> "a", n |-> n]     \* the JSON string of n letters a
 HI == <<104, 105>>   \* "hi"
 Leaves ==
   << Tr(<<"Unit">>, "__null__", <<>>),
@@ -84,7 +85,14 @@ Leaves ==
   \o << Tr(<<"ContractName", 1>>, [contract |-> "a"], LenPrefix(1, 6) \o Bt(<<105, 110, 105, 116, 95, 97>>)),
         Tr(<<"ContractName", 2>>, [contract |-> "a"], LenPrefix(2, 6) \o Bt(<<105, 110, 105, 116, 95, 97>>)),
         Tr(<<"ReceiveName", 1>>, [contract |-> "a", func |-> "b"], LenPrefix(1, 3) \o Bt(<<97, 46, 98>>)),
-        Tr(<<"ReceiveName", 0>>, [contract |-> "a", func |-> "b"], LenPrefix(0, 3) \o Bt(<<97, 46, 98>>)) >>
+        Tr(<<"ReceiveName", 0>>, [contract |-> "a", func |-> "b"], LenPrefix(0, 3) \o Bt(<<97, 46, 98>>)),
+        \* the contract name ends at the FIRST dot: entrypoint names may contain dots
+        Tr(<<"ReceiveName", 1>>, [contract |-> "a", func |-> "b.c"], LenPrefix(1, 5) \o Bt(<<97, 46, 98, 46, 99>>)),
+        \* strings around and beyond 4096 bytes (decoders read long strings in chunks)
+        Tr(<<"String", 1>>, LongStr(4096), LenPrefix(1, 4096) \o << <<"r", 97, 4096>> >>),
+        Tr(<<"String", 1>>, LongStr(4097), LenPrefix(1, 4097) \o << <<"r", 97, 4097>> >>),
+        Tr(<<"String", 2>>, LongStr(5000), LenPrefix(2, 5000) \o << <<"r", 97, 5000>> >>),
+        Tr(<<"String", 3>>, LongStr(4160), LenPrefix(3, 4160) \o << <<"r", 97, 4160>> >>) >>
 
 (* representatives used as components (keeps the closure small but covers every constructor) *)
 Reps == << Tr(<<"U8">>, 255, Bt(<<255>>)), Tr(<<"Unit">>, "__null__", <<>>), Tr(<<"String", 0>>, "hi", LenPrefix(0, 2) \o Bt(HI)),
@@ -141,10 +149,66 @@ BadBytes ==
     Tr(<<"Enum", << <<"A", A_N, <<"none">> >> >> >>, 0, Bt(<<1>>)), Tr(<<"TaggedEnum", << <<5, "A", A_N, <<"none">> >> >> >>, 0, Bt(<<6>>)),
     Tr(<<"ULeb128", 2>>, 0, Bt(<<128, 128, 1>>)), Tr(<<"List", 3, <<"U8">> >>, 0, Le(8, 2147483647) \o Bt(<<1>>)),
     Tr(<<"ByteList", 2>>, 0, Le(4, 2147483647) \o Bt(<<1, 2, 3, 4, 5>>)), Tr(<<"ByteArray", 2147483647>>, 0, Bt(<<1, 2, 3>>)),
-    Tr(<<"ContractName", 1>>, 0, Le(2, 3) \o Bt(<<97, 46, 98>>)), Tr(<<"Array", 2147483647, <<"U8">> >>, 0, Bt(<<1, 2>>)) >>
+    Tr(<<"ContractName", 1>>, 0, Le(2, 3) \o Bt(<<97, 46, 98>>)), Tr(<<"Array", 2147483647, <<"U8">> >>, 0, Bt(<<1, 2>>)),
+    \* long strings that end early: declared 5000 / 100000 / 2^31-1 bytes, fewer present
+    Tr(<<"String", 1>>, 0, LenPrefix(1, 5000) \o << <<"r", 97, 10>> >>), Tr(<<"String", 2>>, 0, LenPrefix(2, 100000) \o << <<"r", 97, 70>> >>),
+    Tr(<<"String", 3>>, 0, LenPrefix(3, 2147483647) \o << <<"r", 97, 5>> >>), Tr(<<"String", 1>>, 0, LenPrefix(1, 4097) \o << <<"r", 97, 4096>> >>),
+    Tr(<<"ContractName", 2>>, 0, LenPrefix(2, 5000) \o << <<"r", 97, 10>> >>), Tr(<<"ReceiveName", 1>>, 0, LenPrefix(1, 5000) \o << <<"r", 46, 10>> >>) >>
+
+(* enums at the tag-width boundary: up to 256 variants the tag is one byte, above that two bytes (little endian) *)
+RECURSIVE DigitCodes(_)
+DigitCodes(n) == IF n < 10 THEN <<48 + n>> ELSE DigitCodes(n \div 10) \o <<48 + (n % 10)>>
+VName(i) == "V" \o ToString(i)
+BigEnumT(n) == <<"Enum", [i \in 1..n |-> <<VName(i - 1), <<86>> \o DigitCodes(i - 1), (IF i = n THEN <<"unnamed", << <<"U16">> >> >> ELSE <<"none">>)>>]>>
+TagBytes(n, i) == IF n <= 256 THEN Bt(<<i>>) ELSE Le(2, i)
+BigEnums ==
+  Flat([k \in 1..3 |-> LET n == 254 + k IN
+        << Tr(BigEnumT(n), (VName(0) :> <<>>), TagBytes(n, 0)),
+           Tr(BigEnumT(n), (VName(n - 2) :> <<>>), TagBytes(n, n - 2)),
+           Tr(BigEnumT(n), (VName(n - 1) :> <<258>>), TagBytes(n, n - 1) \o Le(2, 258)) >>])
+
+-----------------------------------------------------------------------------
+(* Module schemas, versions 0..3 (schema.rs).  Maps are u32 count + entries, names are u32 length + bytes, options are a 0/1 byte.       *)
+(* The versioned form is ff ff <version> ++ module.  A module here has one contract "c" with an optional init and receive functions.    *)
+OptT(o) == IF o = <<>> THEN Bt(<<0>>) ELSE Bt(<<1>>) \o EncType(o[1])
+FnV1(f) == CASE f.p # <<>> /\ f.r = <<>> -> Bt(<<0>>) \o EncType(f.p[1])
+             [] f.p = <<>> /\ f.r # <<>> -> Bt(<<1>>) \o EncType(f.r[1])
+             [] f.p # <<>> /\ f.r # <<>> -> Bt(<<2>>) \o EncType(f.p[1]) \o EncType(f.r[1])
+FnV2Tag(f) == CASE f.p # <<>> /\ f.r = <<>> /\ f.e = <<>> -> 0 [] f.p = <<>> /\ f.r # <<>> /\ f.e = <<>> -> 1 [] f.p # <<>> /\ f.r # <<>> /\ f.e = <<>> -> 2
+                [] f.p = <<>> /\ f.r = <<>> /\ f.e # <<>> -> 3 [] f.p # <<>> /\ f.r = <<>> /\ f.e # <<>> -> 4 [] f.p = <<>> /\ f.r # <<>> /\ f.e # <<>> -> 5
+                [] f.p # <<>> /\ f.r # <<>> /\ f.e # <<>> -> 6 [] OTHER -> 7
+FnV2(f) == Bt(<<FnV2Tag(f)>>) \o (IF f.p = <<>> THEN <<>> ELSE EncType(f.p[1])) \o (IF f.r = <<>> THEN <<>> ELSE EncType(f.r[1])) \o (IF f.e = <<>> THEN <<>> ELSE EncType(f.e[1]))
+EncFn(ver, f) == CASE ver = 0 -> EncType(f.p[1]) [] ver = 1 -> FnV1(f) [] OTHER -> FnV2(f)
+OptFn(ver, o) == IF o = <<>> THEN Bt(<<0>>) ELSE Bt(<<1>>) \o EncFn(ver, o[1])
+R_N == <<114>>    \* "r"
+S_N == <<115>>    \* "s"
+C_NAME == <<99>>  \* "c"
+EncContract(ver, c) ==
+  (IF ver = 0 THEN OptT(c.state) ELSE <<>>) \o OptFn(ver, c.init)
+  \o Le(4, Len(c.receive)) \o Flat([i \in 1..Len(c.receive) |-> StrBytes(c.receive[i][2]) \o EncFn(ver, c.receive[i][3])])
+  \o (IF ver = 3 THEN OptT(c.event) ELSE <<>>)
+EncModule(ver, c) == Le(4, 1) \o StrBytes(C_NAME) \o EncContract(ver, c)
+Fn(p, r, e) == [p |-> p, r |-> r, e |-> e]
+ModTypes == << <<"U8">>, <<"String", 1>>, <<"Pair", <<"U8">>, <<"Bool">> >> >>
+FnsFor(ver) ==
+  IF ver = 0 THEN [i \in 1..3 |-> Fn(<<ModTypes[i]>>, <<>>, <<>>)]
+  ELSE IF ver = 1 THEN << Fn(<<ModTypes[1]>>, <<>>, <<>>), Fn(<<>>, <<ModTypes[2]>>, <<>>), Fn(<<ModTypes[3]>>, <<ModTypes[1]>>, <<>>) >>
+  ELSE << Fn(<<ModTypes[1]>>, <<>>, <<>>), Fn(<<>>, <<ModTypes[2]>>, <<>>), Fn(<<ModTypes[3]>>, <<ModTypes[1]>>, <<>>), Fn(<<>>, <<>>, <<ModTypes[1]>>),
+          Fn(<<ModTypes[2]>>, <<>>, <<ModTypes[1]>>), Fn(<<>>, <<ModTypes[1]>>, <<ModTypes[3]>>), Fn(<<ModTypes[1]>>, <<ModTypes[2]>>, <<ModTypes[3]>>), Fn(<<>>, <<>>, <<>>) >>
+Contracts(ver) ==
+  Flat([i \in 1..Len(FnsFor(ver)) |->
+     << [state |-> <<>>, init |-> <<FnsFor(ver)[i]>>, receive |-> << <<"r", R_N, FnsFor(ver)[i]>> >>, event |-> <<>>],
+        [state |-> << <<"U8">> >>, init |-> <<>>, receive |-> << <<"r", R_N, FnsFor(ver)[i]>>, <<"s", S_N, FnsFor(ver)[1]>> >>, event |-> << <<"String", 1>> >>],
+        [state |-> <<>>, init |-> <<FnsFor(ver)[i]>>, receive |-> <<>>, event |-> <<>>] >>])
+ParamOf(f) == IF f.p = <<>> THEN <<>> ELSE <<EncType(f.p[1])>>
+ModVec(ver, c) == [kind |-> "module", ver |-> ver, mb |-> EncModule(ver, c),
+                   init_param |-> IF c.init = <<>> THEN <<>> ELSE ParamOf(c.init[1]), has_init |-> c.init # <<>>,
+                   recv_param |-> IF c.receive = <<>> THEN <<>> ELSE ParamOf(c.receive[1][3]), has_recv |-> c.receive # <<>>,
+                   t |-> <<"Unit">>, j |-> 0, b |-> <<>>, tb |-> EncType(<<"Unit">>)]
+ModuleVecs == Flat([v \in 1..4 |-> [i \in 1..Len(Contracts(v - 1)) |-> ModVec(v - 1, Contracts(v - 1)[i])]])
 
 Kinded(kind, S) == [i \in 1..Len(S) |-> [kind |-> kind, t |-> S[i].t, j |-> S[i].j, b |-> S[i].b, tb |-> EncType(S[i].t)]]
-AllVecs == Kinded("roundtrip", Level1 \o Level2 \o Level3) \o Kinded("bad_json", BadJson) \o Kinded("bad_bytes", BadBytes)
+AllVecs == Kinded("roundtrip", Level1 \o Level2 \o Level3 \o BigEnums) \o Kinded("bad_json", BadJson) \o Kinded("bad_bytes", BadBytes) \o ModuleVecs
 
 VARIABLE idx
 SInit == idx \in 1..Len(AllVecs)
